@@ -152,13 +152,13 @@ theorem aw_zero {m : M α} (h : AllocW w A B m) : AllocW 0 A B m :=
   aw_mono h (Nat.zero_le _) (Nat.le_refl _) (Nat.le_refl _)
 
 theorem aw_remaining : AllocW 0 A B remaining := by
-  intro s; simp [remaining]
+  intro s; simp only [remaining]; omega
 
 /-- Walks through a `do` block whose pieces are readers with known accounting (all at surplus 0). -/
 macro "aw0" : tactic => `(tactic| repeat (first
   | exact aw_pure _
   | exact aw_fail _
-  | exact aw_noteDepth _
+  | exact aw_noteDepth _ (by unfold DEPTH_BOUND customDepthBound MAX_TYPE_NESTING_DEPTH; omega)
   | exact aw_zero (aw_readU8 (by assumption))
   | exact aw_zero (aw_readShort (by assumption))
   | exact aw_zero (aw_readInt (by assumption))
@@ -181,7 +181,7 @@ theorem aw_deserType (hA : 1 ≤ A) : ∀ fuel, AllocW 2 A B (deserType fuel)
   | fuel + 1 => by
     have ih : AllocW 0 A B (deserType fuel) := aw_zero (aw_deserType hA fuel)
     unfold deserType
-    refine aw_bind0 hA (aw_noteDepth _) (fun _ => aw_bindL hA (aw_tag _ (aw_readShort hA)) (fun id => ?_))
+    refine aw_bind0 hA (aw_noteDepth _ (by unfold DEPTH_BOUND; omega)) (fun _ => aw_bindL hA (aw_tag _ (aw_readShort hA)) (fun id => ?_))
     split
     · refine aw_bind0 hA (aw_tag _ (aw_zero (aw_readString hA))) (fun str => ?_)
       split <;> aw0
@@ -219,7 +219,7 @@ theorem aw_condRead {m : M α} (c : Bool) (d : α) (h : AllocW 0 A B m) : AllocW
   · exact aw_pure _
 
 theorem aw_takeRest : AllocW 0 A B takeRest := by
-  intro s; simp [takeRest]
+  intro s; simp only [takeRest, List.length_nil]; omega
 
 theorem aw_tableSpecFor (hA : 1 ≤ A) (gts : Option (Bytes × Bytes)) : AllocW 0 A B (tableSpecFor gts) := by
   unfold tableSpecFor
@@ -362,7 +362,7 @@ theorem aw2_args {k : List Bytes → M β} (t1 t2 : String) (hk : ∀ l, AW 0 (k
           | ok b => simp only at h2 ⊢; omega
           | err e =>
             simp only at h2 ⊢
-            have := mul_split 2 s.buf.length s1.buf.length hl.2 hA
+            have := mul_split 2 s.buf.length s1.buf.length hl.2.1 hA
             omega
 
 theorem aw2_deserSchemaChange : AW 0 deserSchemaChange := by
